@@ -33,6 +33,13 @@ def main():
         rc, out = sh("%s %s %s" % (PY, demo, wt), cwd=wt, env={"PYTHONPATH": wt})
         res["demo_without_patch"] = {"exit": rc, "tail": out[-300:]}
         rc, out = sh("git apply %s" % patch, cwd=wt)
+        if rc != 0:
+            # the tree has moved on since the change was written (fix commits): retry with reduced context
+            rc2, out2 = sh("git apply -C1 --recount %s || patch -p1 -F3 --no-backup-if-mismatch < %s" % (patch, patch), cwd=wt)
+            if rc2 == 0:
+                rc, out = 0, ""
+                res["applied_with_fuzz"] = True
+                sh("git diff > %s.rebased" % patch, cwd=wt)
         res["applies"] = rc == 0
         if rc != 0:
             res["apply_error"] = out[-500:]
@@ -58,7 +65,8 @@ def main():
     res["caught_by"] = [c for c, r in res.get("checks", {}).items() if r["exit"] == 1]
     dst = os.path.join(ROOT, "seeded", "%s_%s" % (prop, letter))
     os.makedirs(dst, exist_ok=True)
-    shutil.copy(patch, os.path.join(dst, "patch.diff"))
+    shutil.copy(patch + ".rebased" if res.get("applied_with_fuzz") and os.path.exists(patch + ".rebased") else patch,
+                os.path.join(dst, "patch.diff"))
     shutil.copy(demo, os.path.join(dst, "demo.py"))
     meta = {}
     mpath = os.path.join(src, "meta.json")
